@@ -127,12 +127,12 @@ def run(chk):
         jobs.append((("sametype", m[:24]), "let z = %s;" % m, "accept", None, set()))
     # if / else-if / else over truthiness representatives
     from .c06 import REPS
-    for (ts, tv), (us, uv) in itertools.product(REPS[:23], REPS[:23:3]):
+    for (ts, tv), (us, uv) in itertools.product(REPS[:-2], REPS[:-2:3]):
         f1, f2 = falsey(tv), falsey(uv)
         src = "push(__o, if %s { t(1); 10 } else if %s { t(2); 20 } else { t(3); 30 });" % (ts, us)
         exp = 10 if not f1 else (20 if not f2 else 30)
         jobs.append((("ifchain", kind(tv), kind(uv), exp), src, [("i", exp)], 1, set()))
-    for ts, tv in REPS[:23]:
+    for ts, tv in REPS[:-2]:
         f = falsey(tv)
         jobs.append((("if-noelse", kind(tv), f), "push(__o, if %s { 1 });" % ts, [("null",) if f else ("i", 1)], None, set()))
         jobs.append((("if-novalue", kind(tv), f), "push(__o, if %s { let q = 1; } else { 2 });" % ts, [("i", 2) if f else ("null",)], None, set()))
